@@ -761,7 +761,27 @@ func (g *rGen) opRead(h, k int) (bool, bool) {
 	res := hx(buf[:n]) + " " + errName(err)
 	g.delivered(h, buf[:n], err == io.EOF, errName(err))
 	g.sc.emit(fmt.Sprintf("rd c0 v%d %d", h, k), g.line(res))
+	if err != nil && err != io.EOF {
+		g.rereadAfterError(h, true)
+	}
 	return true, err != nil
+}
+
+// rereadAfterError reads again from a message reader whose Read has failed: the error is final for
+// that reader — no payload byte may come out of it afterwards (C04/C05/C06: nothing of a refused
+// or cut message is delivered).
+func (g *rGen) rereadAfterError(h int, modelled bool) {
+	for _, k := range []int{1, 64} {
+		buf := make([]byte, k)
+		n, err := g.readers[h].Read(buf)
+		if modelled {
+			g.sc.emit(fmt.Sprintf("rd c0 v%d %d", h, k), g.line(hx(buf[:n])+" "+errName(err)))
+		}
+		if n > 0 || err == nil || err == io.EOF {
+			g.sc.violate("reading again from a message reader that had failed returned %d bytes, %s (the failure must be final for that message)", n, errName(err))
+		}
+	}
+	g.sc.tag("reread-after-error")
 }
 
 func (g *rGen) isCompressed(h int) bool {
@@ -781,6 +801,9 @@ func (g *rGen) opReadAll(h, k int) {
 			g.delivered(h, p, false, errName(err))
 		}
 		g.sc.emit(fmt.Sprintf("rac c0 v%d z=%s plain=%s", h, hx(m.raw), hx(m.plain)), g.line(res))
+		if err != nil {
+			g.rereadAfterError(h, false)
+		}
 		return
 	}
 	var all []byte
@@ -800,6 +823,9 @@ func (g *rGen) opReadAll(h, k int) {
 	}
 	g.delivered(h, all, err == io.EOF, en)
 	g.sc.emit(fmt.Sprintf("ra c0 v%d %d", h, k), g.line(hx(all)+" "+en))
+	if err != io.EOF {
+		g.rereadAfterError(h, true)
+	}
 }
 
 func (g *rGen) opReadMessage() bool {
